@@ -1,10 +1,10 @@
 package main
 
 import (
-	"os"
 	"encoding/json"
 	"fmt"
 	"math/rand"
+	"os"
 
 	"vharness/internal/abs"
 	"vharness/internal/st"
